@@ -529,3 +529,61 @@ pub fn replay(job: &str, src: &Value, out_dir: &str) {
     sh.push(&rec, src, None, true);
     sh.finish(json!({}));
 }
+
+/// Replay of behaviours printed by TLC from the implementation-shaped model spec/Stream.tla (MC_Stream):
+/// the model's document is rendered, the model's chunking / failure index / limit / flags are applied to
+/// the real rewriter, and the real timeline is judged against the L0 contract like any other run.
+/// The model's predicted final result and output length are compared as a SPEC-DRIFT diagnostic only.
+pub fn job_c12r(out_dir: &str, tier: &str, _seed: u64) {
+    let quick = tier == "quick";
+    let mut sh = Shards::new(out_dir, "c12r", 6_000_000);
+    let path = std::env::var("VERIF_REPLAY_FILE").unwrap_or_default();
+    let text = std::fs::read_to_string(&path).unwrap_or_default();
+    let lines: Vec<&str> = text.lines().collect();
+    let stride = if quick { (lines.len() / 6000).max(1) } else { (lines.len() / 60000).max(1) };
+    let mut n = 0usize; let mut drift = 0usize; let mut drift_samples: Vec<Value> = Vec::new();
+    for (li, line) in lines.iter().enumerate() {
+        if li % stride != 0 { continue; }
+        let b: Value = match serde_json::from_str(line) { Ok(v) => v, Err(_) => continue };
+        // render the document
+        let mut input = Vec::new();
+        for (k, lx) in b["doc"].as_array().unwrap().iter().enumerate() {
+            let len = lx["len"].as_u64().unwrap() as usize;
+            match lx["kind"].as_str().unwrap() {
+                "text" => for j in 0..len { input.push(b'a' + ((k + j) % 26) as u8); },
+                "open" => input.extend_from_slice(b"<a>"),
+                "close" => input.extend_from_slice(b"</a>"),
+                _ => input.extend_from_slice(b"<br>"),
+            }
+        }
+        let mut cuts: Vec<usize> = b["cuts"].as_array().unwrap().iter().map(|x| x.as_u64().unwrap() as usize).collect();
+        // the last write of a complete behaviour ends at the end of the document; cuts are the ends of the earlier ones
+        if cuts.last() == Some(&input.len()) { cuts.pop(); } else if b["phase"] == "ended" { continue; }
+        let nb = b["nbail"].as_u64().unwrap() as usize;
+        let bail: Vec<Value> = (0..nb).map(|_| json!([{"op":"append","a":["!"]}])).collect();
+        let mut cfg = json!({"strict": false, "enc": "utf-8",
+            "elem": [{"sel":"*","element":[{"op":"on_end_tag","a":[[]]}]}], "doc": [{"text":[],"end":[]}],
+            "gh": b["ghandler"], "bail": bail});
+        let max = b["max"].as_i64().unwrap();
+        let mut mem = json!({"prealloc": b["prealloc"], "graceful": b["gmem"]});
+        if max >= 0 { mem["max"] = json!(max); }
+        cfg["mem"] = mem;
+        let fa = b["failAt"].as_u64().unwrap();
+        if fa > 0 { cfg["fail_at"] = json!(fa); }
+        let opts = RunOpts { poke_after_error: true, ..RunOpts::default() };
+        let tl = driver::run(&cfg, &input, &cuts, &opts);
+        n += 1;
+        let rec = record(&format!("c12r-{n}"), &cfg, &input, &tl, None, &["C01", "C10", "C11", "C12", "C15"]);
+        // diagnostic: does the implementation-shaped model predict the final result?
+        let real_res = tl.iter().filter(|e| e["e"] == "ret" && e.get("poke").is_none()).last().map(|e| e["res"].as_str().unwrap_or("").to_string()).unwrap_or_default();
+        let model_res = { let r = b["res"].as_str().unwrap_or(""); if r.is_empty() { "ok".to_string() } else { r.to_string() } };
+        if real_res != model_res {
+            drift += 1;
+            if drift_samples.len() < 5 { drift_samples.push(json!({"behaviour": b, "real": real_res})); }
+        }
+        let src = json!({"id": rec["id"], "cfg": cfg, "input": input, "cuts": cuts, "poke": true});
+        sh.push(&rec, &src, None, true);
+    }
+    sh.finish(json!({"rule": "behaviours of the implementation-shaped model spec/Stream.tla (every chunking x failure at every handler invocation index x memory limits around the real thresholds x graceful flags x bail-out handlers), printed by TLC one per distinct final state, rendered to HTML (text = letters, open = <a>, close = </a>, other = <br>) and executed on the real rewriter with observers on every token; judged against the L0 contract StreamProto.",
+        "model_behaviours_available": lines.len(), "spec_drift_final_result": drift, "spec_drift_samples": drift_samples}));
+}
